@@ -212,7 +212,8 @@ template<typename T, typename W, typename H, typename E, typename A>
 template<typename SerDe>
 size_t frequent_items_sketch<T, W, H, E, A>::get_serialized_size_bytes(const SerDe& sd) const {
   if (total_weight == 0) return PREAMBLE_LONGS_EMPTY * sizeof(uint64_t);
-  size_t size = PREAMBLE_LONGS_NONEMPTY * sizeof(uint64_t) + map.get_num_active() * sizeof(W);
+  // two 8-byte preamble words, then total weight and offset as written by serialize(): sizeof(W) bytes each
+  size_t size = 2 * sizeof(uint64_t) + 2 * sizeof(W) + map.get_num_active() * sizeof(W);
   for (auto it: map) size += sd.size_of_item(it.first);
   return size;
 }
@@ -362,7 +363,8 @@ frequent_items_sketch<T, W, H, E, A> frequent_items_sketch<T, W, H, E, A>::deser
   check_serial_version(serial_version);
   check_family_id(family_id);
   check_size(lg_cur_size, lg_max_size);
-  ensure_minimum_memory(size, preamble_longs * sizeof(uint64_t));
+  // a non-empty image starts with two 8-byte words followed by total weight and offset, sizeof(W) bytes each
+  ensure_minimum_memory(size, is_empty ? sizeof(uint64_t) : 2 * sizeof(uint64_t) + 2 * sizeof(W));
 
   frequent_items_sketch sketch(lg_max_size, lg_cur_size, equal, allocator);
   if (!is_empty) {
